@@ -7,6 +7,7 @@ CONSTANTS
   InitFree = {62, 63, 64}
   InitOffset = 1
   DoubleClear = FALSE
+  RaceClear = FALSE
 ACTION_CONSTRAINT EmitEdge
 INVARIANT InitMark
 CHECK_DEADLOCK FALSE
